@@ -3,7 +3,7 @@ DESIGN = {
     "Duration": dict(module="MC_Duration", quick="MC_Duration_quick.cfg", thorough="MC_Duration_thorough.cfg", workers=8),
 }
 PROPS = {
-    "C06": dict(gens=["Session_C06"], design=["Duration"], drive="C06", trace_cfgs={"Trace_Duration": "Trace_Duration.cfg"},
+    "C06": dict(lemmas=["ClockLaws_C06"], gens=["Session_C06"], design=["Duration"], drive="C06", trace_cfgs={"Trace_Duration": "Trace_Duration.cfg"},
                 level_text="Duration.tla models a TimeDelta as a big-integer nanosecond count with the closed range +-(2^63-1) ms; MC_Duration checks closure, exactness, "
                            "accessor, division-tolerance and order laws plus documentation anchors on the lattice of boundaries; every recorded TimeDelta call (constructors, "
                            "checked and operator arithmetic, accessors, std conversions, Display, comparisons) and random operator chains on a register under the invariant "
